@@ -30,6 +30,11 @@ def bounds(tier):
             ((2, 2, 1, 2, 1, 2) if q else (3, 3, 2, 3, 1, 3)))
 
 
+def trace_variant(desc, tier):
+    """With trace logging enabled: short writes, WebSocketApp sends and the synchronisation-point thread runs (not the line-level and random parts)."""
+    return desc["part"] in ("short", "appsend") or (desc["part"] in ("senders", "receivers", "mixed", "framereceivers") and not desc.get("line") and not desc.get("send_delay"))
+
+
 def tasks(tier, seed):
     ts = []
     q = tier == "quick"
@@ -38,6 +43,10 @@ def tasks(tier, seed):
             ts.append({"part": "short", "n": n, "api": api, "bound": None, "name": "short/%s/%d" % (api, n)})
     for n in (130, 70000):
         ts.append({"part": "short", "n": n, "api": "send", "bound": 2 if q else 3, "name": "short/send/%d" % n})
+    # the same through WebSocketApp (its connection object writes through the dispatcher's send)
+    for accept in (None, "one", "half"):
+        for tls in (False, True):
+            ts.append({"part": "appsend", "accept": accept, "tls": tls, "bound": 1, "name": "appsend/%s/%s" % (accept, "tls" if tls else "plain")})
     for nthreads in (2, 3):
         for accept in (None, "one", "half"):
             ts.append({"part": "senders", "threads": nthreads, "accept": accept, "line": False, "bound": (4 if q else 6) if nthreads == 2 else (2 if q else 4),
@@ -184,6 +193,48 @@ class SendersHarness:
             if rets.get(i) != exp:
                 raise Violation(dict(sig, how="return-value"), "send of message %d returned %r, its frame has %d bytes" % (i, rets.get(i), exp))
         return tuple(f.payload[:1] for f in frames)
+
+
+class AppSendHarness:
+    """WebSocketApp.send / send_text / send_bytes from on_open while the transport accepts 1 byte / half of every write."""
+
+    def __init__(self, d):
+        self.d = d
+        self.steps = 0
+
+    def __call__(self, ch):
+        from .. import appsim
+        d = self.d
+        rets = []
+        sent = [(R.BINARY, bytes((i * 7 + 3) % 256 for i in range(130))), (R.TEXT, "t\u00e9xt".encode()), (R.TEXT, b"plain"), (R.BINARY, b"\x00\xff" * 4)]
+
+        def act(app, run):
+            run.net.socks[-1].send_accept = d["accept"]
+            ABNF = lib.websocket.ABNF
+            rets.append(app.send(sent[0][1], ABNF.OPCODE_BINARY))
+            rets.append(app.send(sent[1][1].decode()))
+            rets.append(app.send_text("plain"))
+            rets.append(app.send_bytes(sent[3][1]))
+
+        spec = {"url": "wss://h.example/" if d["tls"] else "ws://h.example/", "callbacks": ["on_open", "on_message", "on_error", "on_close"],
+                "attempts": [lambda: tnet.ServerPeer(script=[(2.0, "data", R.encode(R.CLOSE, b"\x03\xe8"))], close_latency=0.25)],
+                "actions": {"on_open": act}, "horizon": 100.0}
+        run = appsim.AppRun(ch, spec)
+        res = run.execute()
+        self.steps += run.sched.steps
+        sig = {"kind": "app-send", "accept": d["accept"] or "all", "tls": d["tls"]}
+        if res["abort"]:
+            raise Violation(dict(sig, how="no-termination"), "the run did not end: %s" % res["abort"])
+        errs = [e for e in run.callback_trace() if e[1] == "on_error"]
+        if errs:
+            raise Violation(dict(sig, how="error"), "sending from on_open under short writes reported %r" % (errs[0][2],))
+        peer = run.net.peers[0]
+        got = [(f.opcode, f.payload) for t, f in peer.client_frames if f.opcode != R.CLOSE]
+        if got != sent:
+            raise Violation(dict(sig, how="frames"), "the server decoded %r, the application sent %r (transport accepts %s)" % (
+                [(o, len(p)) for o, p in got], [(o, len(p)) for o, p in sent], d["accept"] or "everything"))
+        # (WebSocketApp.send returns nothing; the byte count is a clause about WebSocket.send, see C01)
+        return len(got)
 
 
 STREAM_MSGS = ["one", "two-frag", b"\x00\x01\x02", "four"]
@@ -382,7 +433,7 @@ def run_task(desc):
         return run_random(desc)
     res = runner.new_result()
     part = desc["part"]
-    h = {"short": ShortHarness, "senders": SendersHarness, "receivers": ReceiversHarness, "mixed": MixedHarness, "framereceivers": FrameReceiversHarness}[part](desc)
+    h = {"short": ShortHarness, "senders": SendersHarness, "receivers": ReceiversHarness, "mixed": MixedHarness, "framereceivers": FrameReceiversHarness, "appsend": AppSendHarness}[part](desc)
     ex = Explorer(h, bound=desc["bound"], merge=False, max_execs=600_000, max_violations=20, shard=tuple(desc["shard"]) if desc.get("shard") else None)
     ex.explore()
     runner.add_explorer(res, ex)
@@ -397,6 +448,6 @@ def run_task(desc):
 
 def replay(rep):
     d = rep["task"]
-    h = {"short": ShortHarness, "senders": SendersHarness, "receivers": ReceiversHarness, "mixed": MixedHarness, "framereceivers": FrameReceiversHarness}[d["part"]](d)
+    h = {"short": ShortHarness, "senders": SendersHarness, "receivers": ReceiversHarness, "mixed": MixedHarness, "framereceivers": FrameReceiversHarness, "appsend": AppSendHarness}[d["part"]](d)
     out, v, ch = replay_choices(h, rep["choices"])
     return None if v is None else {"sig": v.sig, "what": v.what}
